@@ -70,7 +70,7 @@ func c12MakeDefs(r *fw.Rand, owner string, ids []string) c12Defs {
 func c12Run(c *fw.Ctx) fw.Outcome {
 	r := c.R
 	span := fw.Pick(r, []int{1, 2, 3, 8, 50})
-	na, nb := r.Intn(31), r.Intn(31)
+	na, nb := listSize(r, 30), listSize(r, 30)
 	if r.P(1, 10) {
 		na = 0
 	}
